@@ -266,7 +266,7 @@ def replay_native(m, harness_file, function, inputs, defines=(), timeout=120, sa
     r = subprocess.run(['g++', '-std=c++14', '-O0', '-g', '-w'] + san + inc + srcs + [os.path.join(d, 'main.o')] + extra_objs + [lib, '-Wl,-rpath,' + os.path.dirname(lib),
                         '-Wl,--gc-sections', '-o', exe], capture_output=True, text=True)
     if r.returncode: return None, 'replay program did not link: ' + r.stderr[-1500:]
-    env = dict(os.environ, ASAN_OPTIONS='detect_leaks=0:alloc_dealloc_mismatch=0:abort_on_error=0', UBSAN_OPTIONS='print_stacktrace=0')
+    env = dict(os.environ, ASAN_OPTIONS='detect_leaks=0:alloc_dealloc_mismatch=0:abort_on_error=0:detect_odr_violation=0', UBSAN_OPTIONS='print_stacktrace=0')
     try:
         p = subprocess.run([exe], capture_output=True, text=True, timeout=timeout, env=env)
     except subprocess.TimeoutExpired:
